@@ -25,7 +25,7 @@ RULE = ("seeded random qiskit circuits (1-4 qubits, 1-10 gates over h,x,y,z,s,sd
         "flag); non-trivial = at least one multi-qubit gate")
 MANDATORY = ["three_qubit_then_two_qubit_on_two_of_its_qubits", "nonadjacent_cx_reversed", "two_heralded_cascaded",
              "post_selection_rules_returned", "refusal_recorded", "allow_ps_true", "allow_ps_false", "swap_gate",
-             "converter_object_reused"]
+             "converter_object_reused", "two_qubit_gate_distance_ge4"]
 DECIDING = ["mon.converter_postconditions"]
 BUDGET = {"quick": 35, "thorough": 540}
 ASSUMPTIONS = ["qiskit.quantum_info.Operator (little-endian) is the reference unitary", "conversions whose photonic "
@@ -219,6 +219,24 @@ def run(ctx):
                 q = int(rng.integers(n)); qc.h(q); log.append(["h", q])
             ctx.bucket("two_heralded_cascaded")
             allow = False
+        elif fam == 3:
+            # a two-qubit gate between far-apart qubits (needs several swaps each side) on 5-6 qubits
+            n = int(rng.choice([5, 5, 6]))
+            qc = QuantumCircuit(n)
+            for _ in range(int(rng.integers(0, 3))):
+                add_random_gate(qc, rng, n, log, allow3=False, max_multi=0, counter=counter)
+            dist = int(rng.integers(3, n))
+            a = int(rng.integers(0, n - dist))
+            b = a + dist
+            if rng.random() < 0.5:
+                a, b = b, a
+            g = str(rng.choice(["cx", "cz"]))
+            getattr(qc, g)(a, b); log.append([g, a, b])
+            for _ in range(int(rng.integers(0, 3))):
+                add_random_gate(qc, rng, n, log, allow3=False, max_multi=0, counter=counter)
+            if dist >= 4:
+                ctx.bucket("two_qubit_gate_distance_ge4")
+            allow = bool(rng.random() < 0.5)
         else:
             n = int(rng.integers(1, 5))
             qc = QuantumCircuit(n)
